@@ -582,4 +582,160 @@ Proof.
   rewrite (aniso_loop_order m acols acols' st0 Hpa Hna Hoka (fun lc Hl => Hal st0 lc eq_refl Hl)). reflexivity.
 Qed.
 
+(* ---------- fractional versus Cartesian coordinates: whole loops ---------- *)
+(* a site loop whose last three columns are the fractional coordinates of the points ps, against the same loop with
+   instead the three Cartesian columns holding cartesian(p) for each point *)
+Definition SF (i : idx) : setter := Setter (TFract i) SOne (Dec 0 0).
+Definition SC (i : idx) : setter := Setter (TCartn i) SOne (Dec 0 0).
+Definition fract3 (nx ny nz : string) (ps : list (gvec R)) : list (tcol (T:=R)) :=
+  [TCol nx (SF i0) (map (fun p => VNum (x0 p)) ps); TCol ny (SF i1) (map (fun p => VNum (x1 p)) ps); TCol nz (SF i2) (map (fun p => VNum (x2 p)) ps)].
+Definition cartn3 (nx ny nz : string) (ps : list (gvec R)) : list (tcol (T:=R)) :=
+  [TCol nx (SC i0) (map (fun p => VNum (x0 (cartesian E p))) ps); TCol ny (SC i1) (map (fun p => VNum (x1 (cartesian E p))) ps);
+   TCol nz (SC i2) (map (fun p => VNum (x2 (cartesian E p))) ps)].
+
+Lemma filter_all {A} (q : A -> bool) l : (forall x, In x l -> q x = true) -> filter q l = l.
+Proof. induction l as [|x l IH]; intros H; [reflexivity|]. cbn [filter]. rewrite (H x (or_introl eq_refl)), IH; [reflexivity|]. intros y Hy. apply H. right. exact Hy. Qed.
+Lemma filter_none {A} (q : A -> bool) l : (forall x, In x l -> q x = false) -> filter q l = [].
+Proof. induction l as [|x l IH]; intros H; [reflexivity|]. cbn [filter]. rewrite (H x (or_introl eq_refl)). apply IH. intros y Hy. apply H. right. exact Hy. Qed.
+
+Lemma order_row_tail so (A X : list pair) k : (k = 1 \/ k = 2)%nat ->
+  (forall p, In p A -> in_phase so 2 p = false) -> (forall p, In p X -> phase so (tgt p) = k) ->
+  order_row so (A ++ X) = (order_row so A ++ X)%list.
+Proof.
+  intros Hk HA HX. unfold order_row. rewrite !filter_app.
+  assert (X0 : filter (in_phase so 0) X = []).
+  { apply filter_none. intros p Hp. unfold in_phase. fold (tgt p). rewrite (HX p Hp). destruct Hk; subst; reflexivity. }
+  assert (A2 : filter (in_phase so 2) A = []) by (apply filter_none; exact HA).
+  rewrite X0, A2, app_nil_r. cbn [app].
+  destruct Hk; subst k.
+  - assert (X1 : filter (in_phase so 1) X = X) by (apply filter_all; intros p Hp; unfold in_phase; fold (tgt p); rewrite (HX p Hp); reflexivity).
+    assert (X2 : filter (in_phase so 2) X = []) by (apply filter_none; intros p Hp; unfold in_phase; fold (tgt p); rewrite (HX p Hp); reflexivity).
+    rewrite X1, X2, !app_nil_r, app_assoc. reflexivity.
+  - assert (X1 : filter (in_phase so 1) X = []) by (apply filter_none; intros p Hp; unfold in_phase; fold (tgt p); rewrite (HX p Hp); reflexivity).
+    assert (X2 : filter (in_phase so 2) X = X) by (apply filter_all; intros p Hp; unfold in_phase; fold (tgt p); rewrite (HX p Hp); reflexivity).
+    rewrite X1, X2, !app_nil_r, app_assoc. reflexivity.
+Qed.
+
+Lemma run_row_app a (l1 l2 : list pair) : run_row E a (l1 ++ l2) = run_row E (run_row E a l1) l2.
+Proof. unfold run_row. apply fold_left_app. Qed.
+
+Lemma run_fract_cols a p : run_row E a (fract_cols p) = RA (a_label a) (a_elem a) p (a_occ a) (a_adp a).
+Proof. destruct a as [l e x o s], p as [p0 p1 p2], x as [y0 y1 y2]. reflexivity. Qed.
+
+Lemma run_cartn_cols a p : fractional E (cartesian E p) = p ->
+  run_row E a (cartn_cols (cartesian E p)) = RA (a_label a) (a_elem a) p (a_occ a) (a_adp a).
+Proof.
+  intros Hfc. rewrite run_row_components. destruct (fract_vs_cartn p (a_xyz a) Hfc) as [Hx _]. rewrite Hx.
+  destruct a as [l e x o s]. reflexivity.
+Qed.
+
+Lemma nth_map_lt {A B} (f : A -> B) (l : list A) (j : nat) (d : B) (d' : A) : (j < List.length l)%nat -> nth j (map f l) d = f (nth j l d').
+Proof. intros H. rewrite (nth_indep (map f l) d (f d')) by (rewrite map_length; exact H). apply map_nth. Qed.
+
+Definition origin : gvec R := GV 0%R 0%R 0%R.
+
+Lemma rows_in_range nx ny nz ps j : (j < List.length ps)%nat ->
+  row_of (fract3 nx ny nz ps) j = fract_cols (nth j ps origin) /\
+  row_of (cartn3 nx ny nz ps) j = cartn_cols (cartesian E (nth j ps origin)).
+Proof.
+  intros H. unfold row_of, fract3, cartn3, fract_cols, cartn_cols, SF, SC. cbn [map tc_setter tc_vals].
+  rewrite !(nth_map_lt _ ps j VBad origin H). split; reflexivity.
+Qed.
+
+Lemma rows_out_of_range nx ny nz ps j : (List.length ps <= j)%nat ->
+  row_of (fract3 nx ny nz ps) j = [(SF i0, VBad); (SF i1, VBad); (SF i2, VBad)] /\
+  row_of (cartn3 nx ny nz ps) j = [(SC i0, VBad); (SC i1, VBad); (SC i2, VBad)].
+Proof.
+  intros H. unfold row_of, fract3, cartn3. cbn [map tc_setter tc_vals].
+  rewrite !nth_overflow by (rewrite map_length; exact H). split; reflexivity.
+Qed.
+
+Lemma row_status_app (a b : list pair) :
+  row_status (a ++ b) = if existsb is_spec a || existsb is_spec b then Some EUnsupported
+                        else if existsb is_bad a || existsb is_bad b then Some (raised "ValueError") else None.
+Proof. unfold row_status. rewrite !existsb_app. reflexivity. Qed.
+
+Definition no_cartn_cols (cols : list (tcol (T:=R))) : Prop := forall c, In c cols -> is_cartn (s_target (tc_setter c)) = false.
+
+Lemma site_row_fract_cartn d st lab (O : list (tcol (T:=R))) nx ny nz ps j :
+  (forall p, fractional E (cartesian E p) = p) -> no_cartn_cols O ->
+  site_row E d st lab (row_of (O ++ fract3 nx ny nz ps) j) = site_row E d st lab (row_of (O ++ cartn3 nx ny nz ps) j).
+Proof.
+  intros Hfc HO. unfold row_of. rewrite !map_app. fold (row_of O j) (row_of (fract3 nx ny nz ps) j) (row_of (cartn3 nx ny nz ps) j).
+  unfold site_row. destruct (String.eqb lab "?"); [reflexivity|].
+  assert (HA : forall p, In p (row_of O j) -> in_phase the_setter_order 2 p = false).
+  { intros p Hp. unfold row_of in Hp. apply in_map_iff in Hp as [c [<- Hc]]. unfold in_phase. cbn [fst]. specialize (HO c Hc).
+    destruct (s_target (tc_setter c)), the_setter_order; try discriminate; reflexivity. }
+  destruct (Nat.lt_ge_cases j (List.length ps)) as [Hj|Hj].
+  - destruct (rows_in_range nx ny nz ps j Hj) as [-> ->].
+    rewrite !row_status_app.
+    assert (Hs : existsb is_spec (fract_cols (nth j ps origin)) = false /\ existsb is_bad (fract_cols (nth j ps origin)) = false /\
+                 existsb is_spec (cartn_cols (cartesian E (nth j ps origin))) = false /\ existsb is_bad (cartn_cols (cartesian E (nth j ps origin))) = false)
+      by (repeat split; reflexivity).
+    destruct Hs as [-> [-> [-> ->]]].
+    destruct (existsb is_spec (row_of O j) || false); [reflexivity|]. destruct (existsb is_bad (row_of O j) || false); [reflexivity|].
+    rewrite (order_row_tail the_setter_order (row_of O j) (fract_cols (nth j ps origin)) 1); [| left; reflexivity | exact HA |].
+    2:{ intros p [<-|[<-|[<-|[]]]]; unfold tgt; cbn; destruct the_setter_order; reflexivity. }
+    assert (Hc : exists k, (k = 1 \/ k = 2)%nat /\ forall p, In p (cartn_cols (cartesian E (nth j ps origin))) -> phase the_setter_order (tgt p) = k).
+    { destruct the_setter_order; [exists 1%nat | exists 1%nat | exists 2%nat]; (split; [auto|]); intros p [<-|[<-|[<-|[]]]]; reflexivity. }
+    destruct Hc as [k [Hk Hph]].
+    rewrite (order_row_tail the_setter_order (row_of O j) (cartn_cols (cartesian E (nth j ps origin))) k Hk HA Hph).
+    rewrite !run_row_app, run_fract_cols, (run_cartn_cols _ _ (Hfc _)). reflexivity.
+  - destruct (rows_out_of_range nx ny nz ps j Hj) as [-> ->].
+    rewrite !row_status_app. cbn [existsb is_spec is_bad snd orb]. rewrite !orb_true_r.
+    destruct (existsb is_spec (row_of O j) || false); reflexivity.
+Qed.
+
+Lemma label_col_tail name (O : list (tcol (T:=R))) nx ny nz ps :
+  option_map (fun c => (tc_name c, map (fun v => match v with VStr s' => s' | _ => EmptyString end) (tc_vals c))) (label_col name (O ++ fract3 nx ny nz ps)) =
+  option_map (fun c => (tc_name c, map (fun v => match v with VStr s' => s' | _ => EmptyString end) (tc_vals c))) (label_col name (O ++ cartn3 nx ny nz ps)).
+Proof.
+  unfold label_col. induction O as [|c O IH]; cbn [app find].
+  - unfold fract3, cartn3. cbn [find tc_name].
+    destruct (String.eqb nx name); [cbn [option_map tc_name tc_vals]; rewrite !map_map; reflexivity|].
+    destruct (String.eqb ny name); [cbn [option_map tc_name tc_vals]; rewrite !map_map; reflexivity|].
+    destruct (String.eqb nz name); [cbn [option_map tc_name tc_vals]; rewrite !map_map; reflexivity|]. reflexivity.
+  - destruct (String.eqb (tc_name c) name); [reflexivity | exact IH].
+Qed.
+
+Lemma label_at_from_strings (c c' : tcol (T:=R)) i :
+  map (fun v => match v with VStr s' => s' | _ => EmptyString end) (tc_vals c) = map (fun v => match v with VStr s' => s' | _ => EmptyString end) (tc_vals c') ->
+  label_at c i = label_at c' i.
+Proof.
+  intros H. unfold label_at.
+  set (g := fun v : val (T:=R) => match v with VStr s' => s' | _ => EmptyString end) in *.
+  change (g (nth i (tc_vals c) VBad) = g (nth i (tc_vals c') VBad)).
+  transitivity (nth i (map g (tc_vals c)) (g VBad)); [symmetry; apply map_nth|]. rewrite H. apply map_nth.
+Qed.
+
+Lemma has_col_tail name (O : list (tcol (T:=R))) nx ny nz ps : has_col name (O ++ fract3 nx ny nz ps) = has_col name (O ++ cartn3 nx ny nz ps).
+Proof. unfold has_col. rewrite !existsb_app. reflexivity. Qed.
+
+Theorem fract_vs_cartn_loop n (O : list (tcol (T:=R))) nx ny nz ps :
+  (forall p, fractional E (cartesian E p) = p) -> no_cartn_cols O ->
+  read_site_loop E (TLoop n (O ++ cartn3 nx ny nz ps)) = read_site_loop E (TLoop n (O ++ fract3 nx ny nz ps)).
+Proof.
+  intros Hfc HO. unfold read_site_loop. cbn [tl_cols tl_n]. rewrite !(has_col_tail _ O nx ny nz ps).
+  pose proof (label_col_tail "_atom_site_label" O nx ny nz ps) as HL.
+  destruct (label_col "_atom_site_label" (O ++ fract3 nx ny nz ps)) as [lc|], (label_col "_atom_site_label" (O ++ cartn3 nx ny nz ps)) as [lc'|];
+    cbn [option_map] in HL; try discriminate; [|reflexivity].
+  injection HL as _ HL.
+  apply fold_ext_in. intros acc i _. destruct acc as [st|e]; [|reflexivity]. cbn [bind].
+  rewrite (label_at_from_strings lc' lc i (eq_sym HL)). symmetry. apply site_row_fract_cartn; assumption.
+Qed.
+
+Theorem fract_vs_cartn_file find Tb cell n (O : list (tcol (T:=R))) nx ny nz ps aniso b :
+  (forall p, fractional E (cartesian E p) = p) -> no_cartn_cols O ->
+  read_typed E find Tb cell (TLoop n (O ++ cartn3 nx ny nz ps)) aniso b = read_typed E find Tb cell (TLoop n (O ++ fract3 nx ny nz ps)) aniso b.
+Proof. intros Hfc HO. unfold read_typed. rewrite (fract_vs_cartn_loop n O nx ny nz ps Hfc HO). reflexivity. Qed.
+
 End Columns.
+
+(* the lattice hypotheses of this file are satisfiable: the unit cubic cell (and, by C01, every Lattice) *)
+Example lattice_hypotheses_satisfiable : forall (eps : R) (Dz : Z) (grid : R -> Z) (dcv : dec -> R) (c : gvec R),
+  let E := Env (RC eps) (cart_lat ROps eps) (gI ROps) Dz grid dcv in
+  cartesian E (fractional E c) = c /\ fractional E (cartesian E c) = c.
+Proof.
+  intros eps Dz grid dcv c E. destruct c as [a b d]. unfold E, cartesian, fractional, Lattice_cartesian.
+  cbn [e_C e_lat e_recbase RC cO cart_lat l_base]. g_simpl. split; f_equal; ring.
+Qed.
